@@ -340,7 +340,7 @@ func (s *Sess) callGeneric(op *Op, out *Outcome) {
 		// of two long-lived objects (whatever they were configured with before), the others take a new one
 		var x *generic.Exchange
 		var xs *gexState
-		if s.step%3 != 0 {
+		if s.step%3 != 0 && !op.Alt {
 			if s.gex[op.Trav%2] == nil {
 				s.gex[op.Trav%2] = &gexState{x: generic.NewExchange(w), rel: -1}
 			} else {
@@ -495,11 +495,19 @@ func (g *Gen) genericMapOp() *Op {
 	op := &Op{GN: n, GRel: rel}
 	withRel := rel && R.Chance(0.7)
 	op.GWithRel = withRel
+	foreignT := false
 	if !rel && r0 >= 0 && R.Chance(0.3) {
 		// a mapper declared with a relation component that is not one of its own components (meant for targets of
-		// entities that have the relation already); used here without targets, where the declaration must not matter
+		// entities that have the relation already); without targets the declaration must not matter, with a target
+		// Add/Remove and their batch forms change the mapper's components and the target of that relation in one go
 		op.GWithRel = true
+		foreignT = R.Chance(0.6)
 		s.Cov.N["generic_mapper_with_foreign_relation"]++
+	}
+	hasR0 := func(me *MEnt) bool { return m.RelOf(me) == r0 }
+	foreign := func(self ecs.Entity, k string) {
+		op.K, op.Rel, op.T = k, ip(r0), entP(g.pickTarget(self))
+		s.Cov.N["generic_foreign_relation_targets"]++
 	}
 	hasAny := func(me *MEnt) bool {
 		for _, id := range ids {
@@ -538,6 +546,13 @@ func (g *Gen) genericMapOp() *Op {
 			op.K = "BuilderNew"
 		}
 	case 3, 5:
+		if foreignT {
+			if e, _, ok := g.aliveWhere(func(e ecs.Entity, me *MEnt) bool { return !hasAny(me) && hasR0(me) }); ok {
+				op.GK, op.E, op.Add = "Map.Add", entP(e), ids
+				foreign(e, "RelExchange")
+				return op
+			}
+		}
 		e, me, ok := g.aliveWhere(func(e ecs.Entity, me *MEnt) bool { return !hasAny(me) && (!rel || m.RelOf(me) < 0) })
 		if !ok {
 			return nil
@@ -559,6 +574,11 @@ func (g *Gen) genericMapOp() *Op {
 		}
 		op.GK, op.K, op.Add, op.Q, op.Trav = "Map.AddBatch", "BatchAdd", ids, R.Chance(0.5), R.Intn(2)
 		op.F = &FSpec{K: "without", IDs: g.subsetAny(minus(g.nonRels(), func(x int) bool { return contains(ids, x) }), 1), Ex: ex}
+		if foreignT {
+			op.F = &FSpec{K: "without", IDs: []int{r0}, Ex: append([]int{}, ids...)}
+			foreign(ecs.Entity{}, "RelExchangeBatch")
+			return op
+		}
 		if setT(ecs.Entity{}); op.T != nil {
 			op.K = "RelExchangeBatch"
 		}
@@ -568,10 +588,17 @@ func (g *Gen) genericMapOp() *Op {
 			return nil
 		}
 		op.GK, op.K, op.E, op.Rem = "Map.Remove", "Remove", entP(e), ids
+		if foreignT && hasR0(m.Alive[e]) {
+			foreign(e, "RelExchange")
+		}
 	case 7:
 		op.GK, op.K, op.Rem, op.Q, op.Trav = "Map.RemoveBatch", "BatchRemove", ids, R.Chance(0.5), R.Intn(2)
 		op.F = &FSpec{K: "all", IDs: append(append([]int{}, ids...), g.subsetAny(g.nonRels(), 1)...)}
 		op.F.IDs = uniq(op.F.IDs)
+		if foreignT {
+			op.F.IDs = uniq(append(op.F.IDs, r0))
+			foreign(ecs.Entity{}, "RelExchangeBatch")
+		}
 	case 8:
 		excl := R.Chance(0.5)
 		op.GK, op.K, op.Alt = "Map.RemoveEntities", "BatchRemoveEntities", excl
@@ -687,6 +714,119 @@ func (g *Gen) genericDeadOp() *Op {
 		_ = s
 		return &Op{K: "Remove", GK: "Ex.Remove", E: entP(d), Rem: []int{g.anyUsed()}, Trav: R.Intn(6), Ill: "dead.generic.Exchange.Remove"}
 	}
+}
+
+// genericNoRelOp draws a call that hands a target to a mapper declared without a relation: every such call must panic
+// and change nothing.
+func (g *Gen) genericNoRelOp() *Op {
+	s, R := g.S, g.R
+	n := 1 + R.Intn(12)
+	ids := s.gIDs(n, false)
+	op := &Op{GN: n, T: entP(g.pickTarget(ecs.Entity{}))}
+	if R.Chance(0.4) {
+		// the same for an Exchange object that was never told its relation (Alt: a new object)
+		op = &Op{T: op.T, Alt: true, Trav: R.Intn(6)}
+		e, ok := g.pickAlive()
+		if !ok {
+			return nil
+		}
+		switch R.Intn(5) {
+		case 0:
+			op.GK, op.K, op.Add = "Ex.NewEntity", "NewEntity", ids
+		case 1:
+			op.GK, op.K, op.E, op.Add = "Ex.Add", "Add", entP(e), ids
+		case 2:
+			op.GK, op.K, op.E, op.Rem = "Ex.Remove", "Remove", entP(e), ids
+		case 3:
+			op.GK, op.K, op.E, op.Add, op.Rem = "Ex.Exchange", "Exchange", entP(e), ids, g.subsetAny(minus(g.nonRels(), func(x int) bool { return contains(ids, x) }), 2)
+		default:
+			op.GK, op.K, op.Add = "Ex.ExchangeBatch", "BatchExchange", ids
+			op.F = &FSpec{K: "all", IDs: g.subsetAny(g.nonRels(), 1)}
+		}
+		op.Ill = "norel.generic." + op.GK
+		return op
+	}
+	switch R.Intn(7) {
+	case 0:
+		op.GK, op.K, op.Add = "Map.New", "NewEntity", ids
+	case 1:
+		op.GK, op.K, op.Add, op.N, op.Q = "Map.NewBatch", "NewBatch", ids, 1+R.Intn(4), R.Chance(0.5)
+	case 2:
+		op.GK, op.K, op.Add, op.Vals = "Map.NewWith", "NewEntityWith", ids, g.vals(n)
+	case 3, 5:
+		e, ok := g.pickAlive()
+		if !ok {
+			return nil
+		}
+		op.GK, op.K, op.E, op.Add = "Map.Add", "Add", entP(e), ids
+		if R.Chance(0.5) {
+			op.GK, op.K, op.Add, op.Rem = "Map.Remove", "Remove", nil, ids
+		}
+	default:
+		op.GK, op.K, op.Add, op.Q = "Map.AddBatch", "BatchAdd", ids, R.Chance(0.5)
+		op.F = &FSpec{K: "all", IDs: g.subsetAny(g.nonRels(), 1)}
+		if R.Chance(0.5) {
+			op.GK, op.K, op.Add, op.Rem = "Map.RemoveBatch", "BatchRemove", nil, ids
+		}
+	}
+	op.Ill = "norel.generic." + op.GK
+	return op
+}
+
+// genericFilterIllOp draws a filter-builder call that the generic API must reject: changing a registered filter in any
+// way (its registration would no longer be what it selects), a per-query target for a registered filter or for one with
+// a fixed target, Without on an exclusive filter and Exclusive on one that excludes something.
+func (g *Gen) genericFilterIllOp() *Op {
+	s, R := g.S, g.R
+	slots := []int{}
+	for sl := range s.gfs {
+		slots = append(slots, sl)
+	}
+	if len(slots) == 0 {
+		return nil
+	}
+	sortInts(slots)
+	sl := Pick(R, slots)
+	st := s.gfs[sl]
+	own := st.registered && st.owner == s
+	if st.registered && !own {
+		return nil
+	}
+	if len(g.used()) == 0 {
+		return nil
+	}
+	anyComp := func() []int { return []int{Pick(R, g.used())} }
+	switch {
+	case own:
+		switch R.Intn(6) {
+		case 0:
+			return &Op{K: "GFMod", GK: "GF.Mod", Slot: ip(sl), Key: "With", Add: anyComp(), Ill: "locked.generic.Filter.With"}
+		case 1:
+			return &Op{K: "GFMod", GK: "GF.Mod", Slot: ip(sl), Key: "Without", Add: anyComp(), Ill: "locked.generic.Filter.Without"}
+		case 2:
+			if st.n == 0 {
+				return nil
+			}
+			return &Op{K: "GFMod", GK: "GF.Mod", Slot: ip(sl), Key: "Optional", Add: []int{Pick(R, s.gIDs(st.n, st.rel))}, Ill: "locked.generic.Filter.Optional"}
+		case 3:
+			return &Op{K: "GFMod", GK: "GF.Mod", Slot: ip(sl), Key: "Exclusive", Ill: "locked.generic.Filter.Exclusive"}
+		case 4:
+			rs := g.relsUsed()
+			if len(rs) == 0 {
+				return nil
+			}
+			return &Op{K: "GFMod", GK: "GF.Mod", Slot: ip(sl), Key: "WithRelation", Rel: ip(Pick(R, rs)), Ill: "locked.generic.Filter.WithRelation"}
+		default:
+			return &Op{K: "GFQuery", GK: "GF.Query", Slot: ip(sl), T: entP(g.pickTarget(ecs.Entity{})), Ill: "locked.generic.Filter.Query.target"}
+		}
+	case st.fixedT != nil:
+		return &Op{K: "GFQuery", GK: "GF.Query", Slot: ip(sl), T: entP(g.pickTarget(ecs.Entity{})), Ill: "fixed.generic.Filter.Query.target"}
+	case st.exclusive:
+		return &Op{K: "GFMod", GK: "GF.Mod", Slot: ip(sl), Key: "Without", Add: anyComp(), Ill: "exclusive.generic.Filter.Without"}
+	case len(st.without) > 0:
+		return &Op{K: "GFMod", GK: "GF.Mod", Slot: ip(sl), Key: "Exclusive", Ill: "excluding.generic.Filter.Exclusive"}
+	}
+	return nil
 }
 
 func (g *Gen) genericExchangeOp() *Op {
@@ -931,6 +1071,24 @@ func caseC18(c *Ctx) {
 				}
 				if !InjectFault(ks, row, &ko) {
 					gs.fail("generic.twin.failed", "the ID-based equivalent of a rejected %s failed: %s", fop.GK, ks.Viol[0].Msg)
+					break
+				}
+				gs.Cov.N["generic_rejected_calls"]++
+				continue
+			}
+		}
+		if i > 20 && c.R.Chance(0.03) {
+			if fop := g.genericNoRelOp(); fop != nil {
+				if !InjectFault(gs, &FaultRow{Name: fop.Ill, Atomic: true}, fop) {
+					break
+				}
+				gs.Cov.N["generic_rejected_calls"]++
+				continue
+			}
+		}
+		if i > 20 && c.R.Chance(0.04) {
+			if fop := g.genericFilterIllOp(); fop != nil {
+				if !InjectFault(gs, &FaultRow{Name: fop.Ill, Atomic: true}, fop) {
 					break
 				}
 				gs.Cov.N["generic_rejected_calls"]++
